@@ -94,10 +94,21 @@ def sparse_cases(tier):
                     merged.append((o, l))
             out.append(("sparse-%s-mask%x" % (fmt, mask), [E(b"sp", "file", content=content, holes=merged, sparse=fmt)], dialect))
         # many regions: the old format needs extension records (>4), the 1.0 map crosses its 512-byte record
-        for nreg in ((5, 26) if quick else (4, 5, 6, 25, 26, 27, 47, 70)):
+        # region counts at which the decimal text map of format 1.0 crosses a 512-byte record (1, 2 and 3 records)
+        def maplen(n):
+            return len(b"%d\n" % n + b"".join(b"%d\n%d\n" % (i * 512, 100) for i in range(n)))
+        cross = []
+        for lim in (512, 1024):
+            n = next(k for k in range(1, 400) if maplen(k) > lim)
+            cross += [n - 1, n] if (lim == 512 or not quick) else [n]
+        for nreg in sorted(set(((5, 26) if quick else (4, 5, 6, 25, 26, 27, 47, 70)) + tuple(cross))):
             content = b"".join((content_pattern("r%d" % i, 100) + bytes(412)) for i in range(nreg))
             holes = [(i * 512 + 100, 412) for i in range(nreg)]
-            out.append(("sparse-%s-%dregions" % (fmt, nreg), [E(b"many", "file", content=content, holes=holes, sparse=fmt)], dialect))
+            many = E(b"many", "file", content=content, holes=holes, sparse=fmt)
+            out.append(("sparse-%s-%dregions" % (fmt, nreg), [many], dialect))
+            # a reader that loses count of the records it consumed goes wrong at the NEXT header: followers without and with payload
+            out.append(("sparse-%s-%dregions+followers" % (fmt, nreg),
+                        [many, E(b"z1", "slink", target=b"many"), E(b"z2", "file", content=b""), E(b"z3", "dir", mode=0o755), E(b"z4", "file", content=content_pattern("z4", 700))], dialect))
         # unaligned holes, hole at the very start, file that is one big hole
         out.append(("sparse-%s-unaligned" % fmt, [E(b"un", "file", content=b"ab" + bytes(1000) + b"cd" + bytes(7), holes=[(2, 1000), (1004, 7)], sparse=fmt)], dialect))
         out.append(("sparse-%s-all-hole" % fmt, [E(b"hole", "file", content=bytes(5000), holes=[(0, 5000)], sparse=fmt)], dialect))
